@@ -7,8 +7,11 @@
 
 #![allow(dead_code)]
 
+#[allow(unused_imports)]
 pub mod shadow_std {
     pub use ::std::*;
+    /// `std::thread_local!` inside a simulated program gives every *simulated* thread its own copy
+    pub use shuttle::thread_local;
 
     pub mod collections {
         pub use super::super::coll::{HashMap, HashSet};
@@ -30,12 +33,15 @@ pub mod shadow_std {
     }
 
     pub mod fs {
-        pub use super::super::simfs::{read, read_dir, read_to_string, write, DirEntry, File, FileType, ReadDir};
+        pub use super::super::simfs::{
+            copy, create_dir, create_dir_all, metadata, read, read_dir, read_to_string, remove_file, rename, write,
+            DirEntry, File, FileType, OpenOptions, ReadDir,
+        };
         pub use ::std::fs::*;
     }
 
     pub mod io {
-        pub use super::super::simio::{stdout, Stdout, StdoutLock};
+        pub use super::super::simio::{stderr, stdout, Stderr, Stdout, StdoutLock};
         pub use ::std::io::*;
     }
 
@@ -49,9 +55,39 @@ pub mod shadow_std {
         pub use ::std::process::*;
     }
 
+    /// Threads and synchronisation run under the shuttle engine: every lock, channel operation,
+    /// atomic access, spawn and join is a scheduling point at which the simulator decides which
+    /// thread runs next (world::decide_sched).
     pub mod thread {
-        pub use super::super::simthread::{scope, spawn, JoinHandle, Scope, ScopedJoinHandle};
+        pub use super::super::simthread::available_parallelism;
         pub use ::std::thread::*;
+        pub use shuttle::thread::{
+            current, park, park_timeout, scope, sleep, spawn, yield_now, AccessError, Builder, JoinHandle, LocalKey,
+            Scope, ScopedJoinHandle, Thread, ThreadId,
+        };
+    }
+
+    pub mod sync {
+        pub use ::std::sync::*;
+        pub use shuttle::sync::{
+            Barrier, BarrierWaitResult, Condvar, Mutex, MutexGuard, Once, OnceState, RwLock, RwLockReadGuard,
+            RwLockWriteGuard, WaitTimeoutResult,
+        };
+        pub mod atomic {
+            pub use shuttle::sync::atomic::*;
+        }
+        pub mod mpsc {
+            pub use super::super::super::simthread::mpsc::{channel, sync_channel, IntoIter, Iter, Receiver, TryIter};
+            pub use shuttle::sync::mpsc::{
+                RecvError, RecvTimeoutError, SendError, Sender, SyncSender, TryRecvError, TrySendError,
+            };
+        }
+    }
+
+    /// Wall clock and monotonic clock read the simulated clock.
+    pub mod time {
+        pub use super::super::simtime::{Instant, SystemTime, UNIX_EPOCH};
+        pub use ::std::time::*;
     }
 }
 
@@ -62,7 +98,7 @@ pub mod coll {
     use crate::rng::Fnv;
     use crate::world::{self, IterRecord, Tweak};
     use std::borrow::Borrow;
-    use std::cell::Cell;
+    use std::sync::atomic::{AtomicBool, Ordering};
     use std::collections::HashMap as StdMap;
     use std::collections::HashSet as StdSet;
     use std::hash::{BuildHasher, Hash, Hasher};
@@ -137,8 +173,8 @@ pub mod coll {
         v
     }
 
-    fn note_iteration(b: &SimBuild, first: &Cell<bool>, ids: impl Iterator<Item = u64>) {
-        let is_first = !first.replace(true);
+    fn note_iteration(b: &SimBuild, first: &AtomicBool, ids: impl Iterator<Item = u64>) {
+        let is_first = !first.swap(true, Ordering::Relaxed);
         world::with(|w| {
             w.stats.iterations += 1;
             if is_first {
@@ -163,7 +199,7 @@ pub mod coll {
 
     pub struct HashMap<K, V> {
         inner: StdMap<K, V, SimBuild>,
-        iterated: Cell<bool>,
+        iterated: AtomicBool,
     }
 
     impl<K, V> HashMap<K, V> {
@@ -174,19 +210,19 @@ pub mod coll {
         pub fn with_capacity(n: usize) -> Self {
             HashMap {
                 inner: StdMap::with_capacity_and_hasher(n, SimBuild::decide('M')),
-                iterated: Cell::new(false),
+                iterated: AtomicBool::new(false),
             }
         }
         pub fn with_hasher(b: SimBuild) -> Self {
             HashMap {
                 inner: StdMap::with_hasher(b),
-                iterated: Cell::new(false),
+                iterated: AtomicBool::new(false),
             }
         }
         pub fn with_capacity_and_hasher(n: usize, b: SimBuild) -> Self {
             HashMap {
                 inner: StdMap::with_capacity_and_hasher(n, b),
-                iterated: Cell::new(false),
+                iterated: AtomicBool::new(false),
             }
         }
     }
@@ -253,7 +289,7 @@ pub mod coll {
         fn clone(&self) -> Self {
             HashMap {
                 inner: self.inner.clone(),
-                iterated: Cell::new(false),
+                iterated: AtomicBool::new(false),
             }
         }
     }
@@ -322,7 +358,7 @@ pub mod coll {
 
     pub struct HashSet<T> {
         inner: StdSet<T, SimBuild>,
-        iterated: Cell<bool>,
+        iterated: AtomicBool,
     }
 
     impl<T> HashSet<T> {
@@ -333,13 +369,13 @@ pub mod coll {
         pub fn with_capacity(n: usize) -> Self {
             HashSet {
                 inner: StdSet::with_capacity_and_hasher(n, SimBuild::decide('S')),
-                iterated: Cell::new(false),
+                iterated: AtomicBool::new(false),
             }
         }
         pub fn with_hasher(b: SimBuild) -> Self {
             HashSet {
                 inner: StdSet::with_hasher(b),
-                iterated: Cell::new(false),
+                iterated: AtomicBool::new(false),
             }
         }
     }
@@ -385,7 +421,7 @@ pub mod coll {
         fn clone(&self) -> Self {
             HashSet {
                 inner: self.inner.clone(),
-                iterated: Cell::new(false),
+                iterated: AtomicBool::new(false),
             }
         }
     }
@@ -586,6 +622,11 @@ pub mod simfs {
     }
 
     fn fetch(p: &Path) -> io::Result<(String, Arc<Vec<u8>>)> {
+        // a file this run wrote itself (temp file, table written then re-read) is served from the capture
+        let wk = write_key_of(p);
+        if let Some(d) = world::with(|w| w.written.get(&wk).cloned()) {
+            return Ok((wk, Arc::new(d)));
+        }
         let key = world::with(|w| w.image.normalise(p));
         match key {
             Some(k) => {
@@ -680,6 +721,9 @@ pub mod simfs {
         consecutive_eintr: u32,
         /// Some(key) = created for writing: bytes go to the run's captured files
         write_key: Option<String>,
+        /// short writes / EINTR plan of a file opened for writing
+        wrng: Option<Rng>,
+        consecutive_weintr: u32,
     }
 
     fn write_key_of(p: &Path) -> String {
@@ -696,9 +740,114 @@ pub mod simfs {
             let mut pd = Fnv::default();
             pd.str(&key);
             w.event("fs_write", pd.0, d.0);
-            w.written.insert(key, c);
+            if !w.frozen {
+                w.written.insert(key, c);
+            }
         });
         Ok(())
+    }
+
+    /// `fs::rename` of a file this run wrote (write-to-temp-then-rename): moves the capture
+    pub fn rename<P: AsRef<Path>, Q: AsRef<Path>>(from: P, to: Q) -> io::Result<()> {
+        let (kf, kt) = (write_key_of(from.as_ref()), write_key_of(to.as_ref()));
+        world::with(|w| {
+            let mut pd = Fnv::default();
+            pd.str(&kf);
+            pd.str(&kt);
+            w.event("rename", pd.0, 0);
+            match w.written.remove(&kf) {
+                Some(d) => {
+                    if !w.frozen {
+                        w.written.insert(kt, d);
+                    }
+                    Ok(())
+                }
+                None => Err(io::Error::new(
+                    io::ErrorKind::NotFound,
+                    "simulated fs: rename source was not written by this run",
+                )),
+            }
+        })
+    }
+
+    pub fn remove_file<P: AsRef<Path>>(p: P) -> io::Result<()> {
+        let k = write_key_of(p.as_ref());
+        world::with(|w| {
+            let mut pd = Fnv::default();
+            pd.str(&k);
+            w.event("remove_file", pd.0, 0);
+            if w.written.remove(&k).is_some() || w.image.files.contains_key(&k) {
+                Ok(())
+            } else {
+                Err(io::Error::new(io::ErrorKind::NotFound, "No such file or directory"))
+            }
+        })
+    }
+
+    pub fn create_dir<P: AsRef<Path>>(_p: P) -> io::Result<()> {
+        Ok(())
+    }
+    pub fn create_dir_all<P: AsRef<Path>>(_p: P) -> io::Result<()> {
+        Ok(())
+    }
+
+    pub fn copy<P: AsRef<Path>, Q: AsRef<Path>>(from: P, to: Q) -> io::Result<u64> {
+        let data = read(from)?;
+        let n = data.len() as u64;
+        write(to, data)?;
+        Ok(n)
+    }
+
+    /// not simulated: answered by the real file system (the tree the image was loaded from)
+    pub fn metadata<P: AsRef<Path>>(p: P) -> io::Result<std::fs::Metadata> {
+        world::with(|w| w.stats.fs_escapes += 1);
+        std::fs::metadata(real_path(p.as_ref()))
+    }
+
+    #[derive(Clone, Debug, Default)]
+    pub struct OpenOptions {
+        read: bool,
+        write: bool,
+        append: bool,
+        truncate: bool,
+        create: bool,
+        create_new: bool,
+    }
+    impl OpenOptions {
+        pub fn new() -> Self {
+            Self::default()
+        }
+        pub fn read(&mut self, v: bool) -> &mut Self {
+            self.read = v;
+            self
+        }
+        pub fn write(&mut self, v: bool) -> &mut Self {
+            self.write = v;
+            self
+        }
+        pub fn append(&mut self, v: bool) -> &mut Self {
+            self.append = v;
+            self
+        }
+        pub fn truncate(&mut self, v: bool) -> &mut Self {
+            self.truncate = v;
+            self
+        }
+        pub fn create(&mut self, v: bool) -> &mut Self {
+            self.create = v;
+            self
+        }
+        pub fn create_new(&mut self, v: bool) -> &mut Self {
+            self.create_new = v;
+            self
+        }
+        pub fn open<P: AsRef<Path>>(&self, p: P) -> io::Result<File> {
+            if self.write || self.append {
+                File::create_with(p.as_ref(), self.truncate && !self.append)
+            } else {
+                File::open(p)
+            }
+        }
     }
 
     impl File {
@@ -712,16 +861,30 @@ pub mod simfs {
                 rng: if io_seed == 0 { None } else { Some(Rng::new(io_seed)) },
                 consecutive_eintr: 0,
                 write_key: None,
+                wrng: None,
+                consecutive_weintr: 0,
             })
         }
         /// `File::create`: captured, never touches the real tree
         pub fn create<P: AsRef<Path>>(p: P) -> io::Result<File> {
-            let key = write_key_of(p.as_ref());
-            world::with(|w| {
+            File::create_with(p.as_ref(), true)
+        }
+        pub fn options() -> OpenOptions {
+            OpenOptions::new()
+        }
+        fn create_with(p: &Path, truncate: bool) -> io::Result<File> {
+            let key = write_key_of(p);
+            let io_seed = world::with(|w| {
                 let mut pd = Fnv::default();
                 pd.str(&key);
-                w.event("create", pd.0, 0);
-                w.written.insert(key.clone(), vec![]);
+                w.event("create", pd.0, truncate as u64);
+                if !w.frozen {
+                    let e = w.written.entry(key.clone()).or_default();
+                    if truncate {
+                        e.clear();
+                    }
+                }
+                w.decide_stream(&format!("<write>{}", key), true)
             });
             Ok(File {
                 data: Arc::new(vec![]),
@@ -729,6 +892,8 @@ pub mod simfs {
                 rng: None,
                 consecutive_eintr: 0,
                 write_key: Some(key),
+                wrng: if io_seed == 0 { None } else { Some(Rng::new(io_seed)) },
+                consecutive_weintr: 0,
             })
         }
         /// not simulated
@@ -771,13 +936,20 @@ pub mod simfs {
             let Some(key) = self.write_key.clone() else {
                 return Err(io::Error::new(io::ErrorKind::PermissionDenied, "file not opened for writing"));
             };
+            let n = match super::simio::plan_write(&mut self.wrng, &mut self.consecutive_weintr, buf.len()) {
+                Ok(n) => n,
+                Err(e) => return Err(e),
+            };
+            let buf = &buf[..n];
             world::with(|w| {
                 let mut d = Fnv::default();
                 d.bytes(buf);
                 w.event("fwrite", d.0, buf.len() as u64);
-                w.written.entry(key).or_default().extend_from_slice(buf);
+                if !w.frozen {
+                    w.written.entry(key).or_default().extend_from_slice(buf);
+                }
             });
-            Ok(buf.len())
+            Ok(n)
         }
         fn flush(&mut self) -> io::Result<()> {
             Ok(())
@@ -801,10 +973,38 @@ pub mod simfs {
 }
 
 // =============================================================================================
-// stdout handle, environment, process exit
+// stdout / stderr handles, environment, process exit, clock
 // =============================================================================================
 pub mod simio {
+    use crate::rng::Rng;
+    use crate::world;
     use std::io;
+
+    /// Shared by every output stream: how many bytes does this `write` call accept?
+    /// With a plan, a call may be interrupted (at most three times in a row) or accept only a
+    /// prefix (at least one byte) — both legal under `Write`'s contract, and what `write_all`
+    /// exists for.
+    pub fn plan_write(rng: &mut Option<Rng>, consecutive_eintr: &mut u32, len: usize) -> io::Result<usize> {
+        let Some(r) = rng.as_mut() else { return Ok(len) };
+        if len == 0 {
+            return Ok(0);
+        }
+        if *consecutive_eintr < 3 && r.chance(1, 10) {
+            *consecutive_eintr += 1;
+            world::with(|w| {
+                w.stats.write_eintr += 1;
+                w.event("weintr", len as u64, 0);
+            });
+            return Err(io::Error::new(io::ErrorKind::Interrupted, "simulated EINTR on write"));
+        }
+        *consecutive_eintr = 0;
+        if len > 1 && r.chance(1, 3) {
+            let n = 1 + r.below(len as u64 - 1) as usize;
+            world::with(|w| w.stats.short_writes += 1);
+            return Ok(n);
+        }
+        Ok(len)
+    }
 
     pub struct Stdout;
     pub struct StdoutLock;
@@ -816,9 +1016,23 @@ pub mod simio {
             StdoutLock
         }
     }
+    /// a `write` on the stdout handle (not `println!`, which is `write_all` underneath)
     fn put(buf: &[u8]) -> io::Result<usize> {
-        super::emit_str(&String::from_utf8_lossy(buf));
-        Ok(buf.len())
+        let (mut rng, mut ce) = world::with(|w| {
+            if w.stdout_plan.is_none() {
+                let s = w.decide_stream("<stdout>", true);
+                w.stdout_plan = Some(if s == 0 { None } else { Some(Rng::new(s)) });
+            }
+            (w.stdout_plan.take().unwrap(), w.stdout_eintr)
+        });
+        let r = plan_write(&mut rng, &mut ce, buf.len());
+        world::with(|w| {
+            w.stdout_plan = Some(rng);
+            w.stdout_eintr = ce;
+        });
+        let n = r?;
+        super::emit_str(&String::from_utf8_lossy(&buf[..n]));
+        Ok(n)
     }
     impl io::Write for Stdout {
         fn write(&mut self, buf: &[u8]) -> io::Result<usize> {
@@ -839,6 +1053,26 @@ pub mod simio {
     impl io::Write for StdoutLock {
         fn write(&mut self, buf: &[u8]) -> io::Result<usize> {
             put(buf)
+        }
+        fn flush(&mut self) -> io::Result<()> {
+            Ok(())
+        }
+    }
+
+    /// diagnostics channel: discarded (counted), never part of the generator's product
+    pub struct Stderr;
+    pub fn stderr() -> Stderr {
+        Stderr
+    }
+    impl Stderr {
+        pub fn lock(&self) -> Stderr {
+            Stderr
+        }
+    }
+    impl io::Write for Stderr {
+        fn write(&mut self, buf: &[u8]) -> io::Result<usize> {
+            world::with(|w| w.stats.stderr_prints += 1);
+            Ok(buf.len())
         }
         fn flush(&mut self) -> io::Result<()> {
             Ok(())
@@ -877,137 +1111,248 @@ pub mod simenv {
     pub fn current_dir() -> std::io::Result<std::path::PathBuf> {
         Ok(world::with(|w| w.image.crate_dir.clone()))
     }
+    /// `process::exit`: the process image is gone at this instant. Whatever is still buffered in
+    /// user space (a `BufWriter` that was not flushed) is lost, exactly as in reality: the output
+    /// is frozen *before* the unwinding that ends the simulated run drops (and flushes) anything.
     pub fn exit(code: i32) -> ! {
+        world::with(|w| {
+            w.frozen = true;
+            w.exit_code = Some(code);
+            w.event("exit", code as u64, 0);
+        });
         std::panic::panic_any(ExitRequest(code))
     }
 }
 
 // =============================================================================================
-// Threads: bodies run as atomic tasks on the simulator's own thread
+// Threads
 // =============================================================================================
-/// The pinned generators are single-threaded; this shim exists so that a generator rewritten to
-/// use worker threads still runs under the simulator instead of escaping it. A spawned body runs
-/// to completion without preemption, either at `spawn` (eager) or — for `'static` spawns, by
-/// simulator decision — deferred until the first `join`, at which point all deferred bodies run
-/// in a simulator-chosen order. Scoped threads run eagerly. This explores the completion orders of
-/// whole thread bodies, not interleavings inside them.
+/// Thread and sync primitives are shuttle's (see `shadow_std::thread` / `sync`); what is left here
+/// are the pieces shuttle does not model: the machine's core count and waits with a deadline.
 pub mod simthread {
     use crate::world;
-    use std::any::Any;
-    use std::cell::RefCell;
-    use std::marker::PhantomData;
-    use std::panic::{catch_unwind, AssertUnwindSafe};
-    use std::rc::Rc;
+    use std::num::NonZeroUsize;
 
-    type Res<T> = Result<T, Box<dyn Any + Send + 'static>>;
-
-    thread_local! {
-        static PENDING: RefCell<Vec<Box<dyn FnOnce()>>> = const { RefCell::new(Vec::new()) };
+    /// `thread::available_parallelism()`: a property of the machine the maintainer happens to
+    /// use, so a simulator decision.
+    pub fn available_parallelism() -> std::io::Result<NonZeroUsize> {
+        let n = world::with(|w| w.decide_cores());
+        Ok(NonZeroUsize::new(n.max(1) as usize).unwrap())
     }
 
-    /// drop deferred bodies that were never joined (a real process exit kills such threads)
-    pub fn reset() {
-        PENDING.with(|p| p.borrow_mut().clear());
-    }
+    pub mod mpsc {
+        use crate::world;
+        use shuttle::sync::mpsc as sh;
+        use std::time::Duration;
 
-    fn run_pending() {
-        let tasks: Vec<Box<dyn FnOnce()>> = PENDING.with(|p| std::mem::take(&mut *p.borrow_mut()));
-        if tasks.is_empty() {
-            return;
+        pub fn channel<T>() -> (sh::Sender<T>, Receiver<T>) {
+            let (tx, rx) = sh::channel();
+            (tx, Receiver { inner: rx })
         }
-        let order = world::with(|w| w.decide_task_order(tasks.len()));
-        let mut slots: Vec<Option<Box<dyn FnOnce()>>> = tasks.into_iter().map(Some).collect();
-        for i in order {
-            if let Some(t) = slots[i as usize].take() {
-                t();
+        pub fn sync_channel<T>(bound: usize) -> (sh::SyncSender<T>, Receiver<T>) {
+            let (tx, rx) = sh::sync_channel(bound);
+            (tx, Receiver { inner: rx })
+        }
+
+        /// shuttle's receiver plus deadlines: shuttle has no notion of time, its `recv_timeout`
+        /// never times out. Here a timed wait that finds the channel empty asks the simulator
+        /// whether the deadline passes before anybody else runs (every real scheduler may stall
+        /// the other threads for longer than any fixed timeout).
+        #[derive(Debug)]
+        pub struct Receiver<T> {
+            inner: sh::Receiver<T>,
+        }
+        impl<T> Receiver<T> {
+            pub fn recv(&self) -> Result<T, sh::RecvError> {
+                self.inner.recv()
+            }
+            pub fn try_recv(&self) -> Result<T, sh::TryRecvError> {
+                self.inner.try_recv()
+            }
+            pub fn recv_timeout(&self, _timeout: Duration) -> Result<T, sh::RecvTimeoutError> {
+                loop {
+                    match self.inner.try_recv() {
+                        Ok(v) => return Ok(v),
+                        Err(sh::TryRecvError::Disconnected) => return Err(sh::RecvTimeoutError::Disconnected),
+                        Err(sh::TryRecvError::Empty) => {}
+                    }
+                    // nothing to receive yet: let the other threads run
+                    world::with(|w| w.yield_probe = None);
+                    shuttle::thread::yield_now();
+                    let others_can_run = world::with(|w| w.yield_probe.take()).unwrap_or(false);
+                    if !others_can_run {
+                        // every other thread is finished or blocked: only time can pass, and it does
+                        world::with(|w| {
+                            w.stats.timeouts_natural += 1;
+                            w.event("timeout_natural", 0, 0);
+                        });
+                        return Err(sh::RecvTimeoutError::Timeout);
+                    }
+                    match self.inner.try_recv() {
+                        Ok(v) => return Ok(v),
+                        Err(sh::TryRecvError::Disconnected) => return Err(sh::RecvTimeoutError::Disconnected),
+                        Err(sh::TryRecvError::Empty) => {}
+                    }
+                    // still empty although others could run: a real scheduler may keep them off the
+                    // CPU for longer than any fixed timeout (stalled-machine fault, simulator decision)
+                    if world::with(|w| w.decide_timeout()) {
+                        return Err(sh::RecvTimeoutError::Timeout);
+                    }
+                }
+            }
+            pub fn iter(&self) -> Iter<'_, T> {
+                Iter { rx: self }
+            }
+            pub fn try_iter(&self) -> TryIter<'_, T> {
+                TryIter { rx: self }
+            }
+        }
+        pub struct Iter<'a, T: 'a> {
+            rx: &'a Receiver<T>,
+        }
+        pub struct TryIter<'a, T: 'a> {
+            rx: &'a Receiver<T>,
+        }
+        pub struct IntoIter<T> {
+            rx: Receiver<T>,
+        }
+        impl<T> Iterator for Iter<'_, T> {
+            type Item = T;
+            fn next(&mut self) -> Option<T> {
+                self.rx.recv().ok()
+            }
+        }
+        impl<T> Iterator for TryIter<'_, T> {
+            type Item = T;
+            fn next(&mut self) -> Option<T> {
+                self.rx.try_recv().ok()
+            }
+        }
+        impl<'a, T> IntoIterator for &'a Receiver<T> {
+            type Item = T;
+            type IntoIter = Iter<'a, T>;
+            fn into_iter(self) -> Iter<'a, T> {
+                self.iter()
+            }
+        }
+        impl<T> Iterator for IntoIter<T> {
+            type Item = T;
+            fn next(&mut self) -> Option<T> {
+                self.rx.recv().ok()
+            }
+        }
+        impl<T> IntoIterator for Receiver<T> {
+            type Item = T;
+            type IntoIter = IntoIter<T>;
+            fn into_iter(self) -> IntoIter<T> {
+                IntoIter { rx: self }
             }
         }
     }
+}
 
-    pub struct JoinHandle<T> {
-        slot: Rc<RefCell<Option<Res<T>>>>,
-    }
+// =============================================================================================
+// Clock
+// =============================================================================================
+/// `SystemTime::now()` / `Instant::now()` read the simulated clock, so that a generator that
+/// stamps its output or measures itself stays a deterministic function of the run's seed.
+pub mod simtime {
+    use crate::world;
+    use std::ops::{Add, Sub};
+    use std::time::Duration;
 
-    impl<T> JoinHandle<T> {
-        pub fn join(self) -> Res<T> {
-            if self.slot.borrow().is_none() {
-                run_pending();
-            }
-            let r = self.slot.borrow_mut().take();
-            r.expect("simulated thread body did not run")
-        }
-        pub fn is_finished(&self) -> bool {
-            self.slot.borrow().is_some()
-        }
-    }
+    #[derive(Clone, Copy, Debug, PartialEq, Eq, PartialOrd, Ord, Hash)]
+    pub struct SystemTime(u64);
+    pub const UNIX_EPOCH: SystemTime = SystemTime(0);
 
-    pub fn spawn<F, T>(f: F) -> JoinHandle<T>
-    where
-        F: FnOnce() -> T + Send + 'static,
-        T: Send + 'static,
-    {
-        let slot: Rc<RefCell<Option<Res<T>>>> = Rc::new(RefCell::new(None));
-        let eager = world::with(|w| w.decide_spawn());
-        if eager {
-            *slot.borrow_mut() = Some(catch_unwind(AssertUnwindSafe(f)));
-        } else {
-            let s2 = slot.clone();
-            PENDING.with(|p| {
-                p.borrow_mut().push(Box::new(move || {
-                    *s2.borrow_mut() = Some(catch_unwind(AssertUnwindSafe(f)));
-                }))
-            });
-        }
-        JoinHandle { slot }
-    }
-
-    pub struct Scope<'scope, 'env: 'scope> {
-        _scope: PhantomData<&'scope mut &'scope ()>,
-        _env: PhantomData<&'env mut &'env ()>,
-    }
-
-    pub struct ScopedJoinHandle<'scope, T> {
-        result: Option<Res<T>>,
-        _scope: PhantomData<&'scope ()>,
-    }
-
-    impl<T> ScopedJoinHandle<'_, T> {
-        pub fn join(mut self) -> Res<T> {
-            self.result.take().expect("scoped body ran at spawn")
-        }
-        pub fn is_finished(&self) -> bool {
-            true
+    #[derive(Clone, Debug)]
+    pub struct SystemTimeError(Duration);
+    impl SystemTimeError {
+        pub fn duration(&self) -> Duration {
+            self.0
         }
     }
+    impl std::fmt::Display for SystemTimeError {
+        fn fmt(&self, f: &mut std::fmt::Formatter) -> std::fmt::Result {
+            write!(f, "second time provided was later than self")
+        }
+    }
+    impl std::error::Error for SystemTimeError {}
 
-    impl<'scope, 'env> Scope<'scope, 'env> {
-        pub fn spawn<F, T>(&'scope self, f: F) -> ScopedJoinHandle<'scope, T>
-        where
-            F: FnOnce() -> T + Send + 'scope,
-            T: Send + 'scope,
-        {
-            world::with(|w| w.note_scoped_spawn());
-            ScopedJoinHandle {
-                result: Some(catch_unwind(AssertUnwindSafe(f))),
-                _scope: PhantomData,
+    impl SystemTime {
+        pub const UNIX_EPOCH: SystemTime = SystemTime(0);
+        pub fn now() -> SystemTime {
+            SystemTime(world::with(|w| w.read_clock()))
+        }
+        pub fn duration_since(&self, earlier: SystemTime) -> Result<Duration, SystemTimeError> {
+            if self.0 >= earlier.0 {
+                Ok(Duration::from_nanos(self.0 - earlier.0))
+            } else {
+                Err(SystemTimeError(Duration::from_nanos(earlier.0 - self.0)))
             }
         }
+        pub fn elapsed(&self) -> Result<Duration, SystemTimeError> {
+            SystemTime::now().duration_since(*self)
+        }
+    }
+    impl Add<Duration> for SystemTime {
+        type Output = SystemTime;
+        fn add(self, d: Duration) -> SystemTime {
+            SystemTime(self.0 + d.as_nanos() as u64)
+        }
+    }
+    impl Sub<Duration> for SystemTime {
+        type Output = SystemTime;
+        fn sub(self, d: Duration) -> SystemTime {
+            SystemTime(self.0.saturating_sub(d.as_nanos() as u64))
+        }
     }
 
-    pub fn scope<'env, F, T>(f: F) -> T
-    where
-        F: for<'scope> FnOnce(&'scope Scope<'scope, 'env>) -> T,
-    {
-        let s = Scope {
-            _scope: PhantomData,
-            _env: PhantomData,
-        };
-        f(&s)
+    #[derive(Clone, Copy, Debug, PartialEq, Eq, PartialOrd, Ord, Hash)]
+    pub struct Instant(u64);
+    impl Instant {
+        pub fn now() -> Instant {
+            Instant(world::with(|w| w.read_clock()))
+        }
+        pub fn elapsed(&self) -> Duration {
+            Instant::now().duration_since(*self)
+        }
+        pub fn duration_since(&self, earlier: Instant) -> Duration {
+            Duration::from_nanos(self.0.saturating_sub(earlier.0))
+        }
+        pub fn saturating_duration_since(&self, earlier: Instant) -> Duration {
+            self.duration_since(earlier)
+        }
+        pub fn checked_duration_since(&self, earlier: Instant) -> Option<Duration> {
+            self.0.checked_sub(earlier.0).map(Duration::from_nanos)
+        }
+    }
+    impl Sub<Instant> for Instant {
+        type Output = Duration;
+        fn sub(self, o: Instant) -> Duration {
+            self.duration_since(o)
+        }
+    }
+    impl Add<Duration> for Instant {
+        type Output = Instant;
+        fn add(self, d: Duration) -> Instant {
+            Instant(self.0 + d.as_nanos() as u64)
+        }
+    }
+    impl Sub<Duration> for Instant {
+        type Output = Instant;
+        fn sub(self, d: Duration) -> Instant {
+            Instant(self.0.saturating_sub(d.as_nanos() as u64))
+        }
     }
 }
 
 pub fn emit_str(s: &str) {
     crate::world::with(|w| {
+        if w.frozen {
+            w.stats.prints_after_exit += 1;
+            return;
+        }
         w.out.push_str(s);
         w.stats.prints += 1;
         let mut d = crate::rng::Fnv::default();
@@ -1023,11 +1368,21 @@ pub fn emit(args: std::fmt::Arguments, newline: bool) {
     if newline {
         s.push('\n');
     }
+    emit_str(&s);
+}
+
+/// stderr of the generator (`eprintln!`, `dbg!`): formatted (side effects of Display impls happen
+/// as in reality), counted, discarded
+pub fn emit_err(args: std::fmt::Arguments) {
+    let _ = std::fmt::format(args);
+    crate::world::with(|w| w.stats.stderr_prints += 1);
+}
+
+/// `main` returned: the process exits; detached threads die and nothing they would still have
+/// written counts
+pub fn main_returned() {
     crate::world::with(|w| {
-        w.out.push_str(&s);
-        w.stats.prints += 1;
-        let mut d = crate::rng::Fnv::default();
-        d.bytes(s.as_bytes());
-        w.event("print", d.0, s.len() as u64);
+        w.frozen = true;
+        w.event("main_returned", 0, 0);
     });
 }
